@@ -575,6 +575,19 @@ def body_stage(case):
             where = "one object" if which == "interleave" else "two objects of one configuration"
             if check_overlapping(lambda: stage.call(obj, mine, c), lambda: stage.call(obj_b, theirs, c), case.get("preempt", [3]), f"{stage.name} ({n} events, {where})"):
                 labels.add("overlapping_calls" if which == "interleave" else "overlapping_calls_two_objects")
+        elif which == "copied":
+            # copies of the module object (copy.copy, copy.deepcopy - what a user keeps as a "snapshot", what some task
+            # frameworks make) behave like the object
+            import copy
+
+            with cut(f"{stage.name}: copy.copy / copy.deepcopy of the module object"):
+                shallow, deep = copy.copy(obj), copy.deepcopy(obj)
+            r1_ = _run(stage, shallow, arrays, c)
+            for j2, (g, b) in enumerate(zip(r1_, base)):
+                require(_bytes([g]) == _bytes([b]), f"{stage.name}: a copy.copy of the module object returns other values in output #{j2} than the object")
+            r = _run(stage, deep, arrays, c)
+            want = base
+            labels.add("copied_object")
         elif which == "churn":
             # objects of other configurations are created, used and dropped (their memory is recycled), then a NEW
             # object of this configuration is created: it must not inherit anything from the dead ones
@@ -787,7 +800,7 @@ def stage_case(names, sizes):
             "c": st.floats(0.01, 0.99),
             "perm": st.lists(st.floats(0.0, 1.0), min_size=16, max_size=16),
             "split": st.sampled_from(["0", "1", "n-1", "n", "0.5", "0.37", "0.9", "0.41"]),
-            "history": st.lists(st.sampled_from(["same", "perm", "half", "refill", "refill", "scribble", "alt", "other", "other", "strided", "reject", "reject", "bigendian", "fortran2d", "transposed2d", "churn", "interleave", "interleave", "interleave_other", "interleave_other", "float32"]), min_size=1, max_size=6),
+            "history": st.lists(st.sampled_from(["same", "perm", "half", "refill", "refill", "scribble", "alt", "other", "other", "strided", "reject", "reject", "bigendian", "fortran2d", "transposed2d", "churn", "interleave", "interleave", "interleave_other", "interleave_other", "float32", "copied"]), min_size=1, max_size=6),
             "preempt": st.lists(st.one_of(st.integers(0, 40), st.integers(0, 400), st.integers(0, 6000)), min_size=1, max_size=3),
         }
     )
